@@ -345,7 +345,9 @@ def run(ctx) -> None:
     rng = ctx.rng
     quick = ctx.tier == "quick"
     venv.WORK_DIR.mkdir(parents=True, exist_ok=True)
-    for _ in range(1 if quick else 4):
+    for _ in range(1 if quick else 3):
+        if ctx.elapsed() > 0.2 * ctx.budget_s:
+            break
         cli_differential(ctx, {"n": rng.choice([3, 4]), "generator": rng.choice(CONTINUOUS), "computer": rng.choice(sut.SA_COMPUTERS),
                                "gap": rng.choice(list(GAP_FUNCTIONS)), "solver": rng.choice(["greedy", "largest", "greedy_worst"]),
                                "seed": rng.randint(0, 10**6), "repetitions": rng.choice([5, 7, 12]), "budget": rng.choice([None, 2, 3]),
@@ -359,12 +361,16 @@ def run(ctx) -> None:
                     "seed": rng.randint(0, 10**6), "repetitions": 3, "budget": None, "procs": 2, "limit": None})
     # look-ahead solvers on games where a single reveal can end the episode (full-length runs, sequential: cheap)
     for _ in range(8 if quick else 40):
+        if ctx.elapsed() > 0.45 * ctx.budget_s:
+            break
         run_config(ctx, {"n": 4, "generator": rng.choice(["xs2", "xs2", "xs3", "k_budget_generator"]), "computer": rng.choice(sut.SA_COMPUTERS),
                          "gap": rng.choice(list(GAP_FUNCTIONS)), "solver": rng.choice(["greedy_worst", "greedy_worst", "greedy"]),
                          "seed": rng.randint(0, 10**6), "repetitions": 4, "limit": 16, "budget": None, "processes": [1]})
         ctx.count("full_length_lookahead_runs")
     # always: full-length runs on hidden games with huge stand-alone worths (values >> remaining uncertainty)
     for _ in range(3 if quick else 12):
+        if ctx.elapsed() > 0.55 * ctx.budget_s:
+            break
         run_config(ctx, {"n": 4, "generator": rng.choice(["noisy_factory", "xos", "graph_random"]), "computer": rng.choice(sut.SA_COMPUTERS),
                          "gap": rng.choice(list(GAP_FUNCTIONS)), "solver": "largest", "seed": rng.randint(0, 10**6), "repetitions": 3,
                          "limit": 16, "budget": None, "processes": [1], "offset": -1e6})
